@@ -19,6 +19,8 @@ Verdict(v) ==
   ELSE IF SetsOf(v.attrsWhole) # DeriveSets(v.whole)
        THEN "supported modes / speeds are not the documented function of the parsed capabilities: " \o (CHOOSE f \in DOMAIN DeriveSets(v.whole) : SetsOf(v.attrsWhole)[f] # DeriveSets(v.whole)[f])
   ELSE IF TempsOf(v.attrsWhole) # DeriveTemps(v.whole) THEN "setpoint limits are not the documented function of the parsed capabilities"
+  ELSE IF FlagsOf(v.attrsReuse) # FlagsOf(v.attrsWhole) \/ SetsOf(v.attrsReuse) # SetsOf(v.attrsWhole) \/ TempsOf(v.attrsReuse) # TempsOf(v.attrsWhole)
+       THEN "an object that queried another unit's capabilities before reports something else than a fresh object (state carried across queries)"
   ELSE IF BadSplit(v.splits, v.attrsWhole, 1) # 0
        THEN "split delivery differs from single response at split point " \o ToString(v.splits[BadSplit(v.splits, v.attrsWhole, 1)].at)
   ELSE "ok"
